@@ -397,6 +397,11 @@ var c01Programs = []string{
 	"counter hits by src, dst\n/^(\\S+) (add|del)$/ {\n  hits[$1][$2]++\n  hits[$2][$1]++\n}\n/^(\\S+) del$/ {\n  del hits[$1][\"del\"]\n}\n/^(\\S+) add$/ {\n  del hits[\"add\"][$1] after 1h\n}\n",
 	// a length as a truth value under && and || (zero is false, like every other integer)
 	"counter c\ncounter d\n/^(\\S*) add/ && len($1) && 1 {\n  c++\n}\n/^(\\S*) del/ && (len($1) || 0) {\n  d++\n}\n",
+	// the replacement of subst() is literal text, `$` and all
+	"text t\ntext u\ncounter c by k\n/^(\\S+) (\\S+)/ {\n  t = subst(/(\\d+)\\.(\\d+)/, \"$2.$1\", $1)\n  u = subst(/(?P<n>\\d+)/, \"${n}$n$$\", $1)\n  c[subst(/\\d+/, \"$id\", $1)]++\n}\n",
+	// strings whose type is inferred (a dimensioned text metric, a builtin's result) are compared as
+	// strings, also when they look like numbers
+	"counter c\ncounter d\ncounter e\ntext tt by k\n/^(\\S+) (\\S+)$/ {\n  tt[$1] = $1\n  tt[$1] == $2 {\n    c++\n  }\n  tolower($1) == \"1234567.0\" {\n    d++\n  }\n  subst(\"a\", \"b\", $1) < $2 {\n    e++\n  }\n}\n",
 }
 
 func init() {
